@@ -29,21 +29,24 @@ func (a *config) MergeSpoc(d deviceconf.Config) deviceconf.Config {
 				errlog.Abort("Must not redefine chain %q of table %q from rawdata",
 					cName, tName)
 			}
+			// Keep order of rules from raw:
+			// rules marked with [APPEND] are inserted as a whole
+			// before trailing DROP lines,
+			// other rules are inserted as a whole in front.
+			var prepend, appendRules []rule
 			for _, ru := range bChain.rules {
-				i := 0
 				if ru.append {
-					// Append before last non DROP line.
-					i = len(aChain.rules)
-					for i > 0 {
-						if aChain.rules[i-1].pairs["-j"] == "DROP" {
-							i--
-						} else {
-							break
-						}
-					}
+					appendRules = append(appendRules, ru)
+				} else {
+					prepend = append(prepend, ru)
 				}
-				aChain.rules = slices.Insert(aChain.rules, i, ru)
 			}
+			i := len(aChain.rules)
+			for i > 0 && aChain.rules[i-1].pairs["-j"] == "DROP" {
+				i--
+			}
+			l := slices.Insert(aChain.rules, i, appendRules...)
+			aChain.rules = slices.Insert(l, 0, prepend...)
 		}
 	}
 	return a
